@@ -112,7 +112,7 @@ def resolve_method(cls, name, after=None):
             fobj = getattr(obj, '__func__', obj)
             c = BY_OBJECT.get(id(fobj))
             if c is not None: return c
-            c = C.CONTRACTS.get(f'{k.__name__}.{name}')
+            c = C.CONTRACTS.get(f'{k.__name__}.{name}') or C.CONTRACTS.get(f'*.{name}')
             if c is not None: return c
             raise Unsupported(f'no contract for {k.__name__}.{name}')
     return None
@@ -136,6 +136,9 @@ def call_method(ex, st, recv, name, pos, named, stars, sargs, node, ov):
         return apply_contract(ex, st, k, recv.selfv, pos, named, stars, sargs, node)
     if isinstance(recv, ZV) and recv.kind in ('ref', 'val'):
         r = recv if recv.kind == 'ref' else ZV('ref', Val.ref(recv.z))
+        if FIELD_ALIAS.get(name, name) in FIELDS:
+            # an attribute holding a callable (user function, bound coroutine, ...), not a method
+            return call_value(ex, st, st.read(name, r.z), pos, named, stars, sargs, node)
         k = None
         if r.cls is not None:
             real = C_class(r.cls)
@@ -581,10 +584,9 @@ def _frozenset(ex, st, pos, named, node):
     v, = pos
     if isinstance(v, PSet): return [(st, v)]
     if isinstance(v, ZV) and v.kind == 'val':
-        # frozenset(iterable of arbitrary values): membership by ==/hash; abstracted to "contains" of the source
-        arr = fresh('fs', ValSet); st = st.copy()
-        st.assume(arr == members_of(v.z))
-        return [(st, PSet(arr, 'val'))]
+        # frozenset(iterable of arbitrary values): the member set is an uninterpreted function of the iterable
+        # (a TypeError for unhashable members is outside the model: assumption "allowed members are hashable")
+        return [(st, PSet(members_of(v.z), 'val'))]
     raise Unsupported(f'frozenset({v!r})')
 
 
@@ -711,7 +713,7 @@ def _s_pop(ex, st, recv, pos, named, node):
 def _elem(ex, st, recv, v):
     if recv.ekind == 'ref': return as_kind(v, Ref(), st)
     if recv.ekind == 'str': return ex.as_str(st, v)
-    return to_val(v, st)
+    return norm_key(to_val(v, st))
 
 
 @method(PSet, 'union')
